@@ -144,6 +144,10 @@ func Preview(sql string) int {
 		return StmtLoad
 	case "call":
 		return StmtCallProc
+	case "prepare":
+		return StmtPrepare
+	case "execute":
+		return StmtExecute
 	}
 
 	return StmtUnknown
